@@ -17,7 +17,7 @@ from simkit import engine_world as W
 from simkit.core import EventLog, SutError, Violations, canon, sha, tree_digest
 from simkit.props.C07 import failed, sut_violation
 
-RUN_CAP_S = 240
+RUN_CAP_S = 900
 CODES = [1, 2, 7, 90]
 PATTERNS = ["none", "warmup_only", "posterior_only", "dense", "single_chain", "all_chains_one_time", "sparse"]
 
